@@ -170,8 +170,8 @@ def build_and_run(h, tier, workroot, keep=False):
         if pairs:
             cb += ["--unwindset", ",".join(sorted(set(pairs)))]
     cb += ["--unwinding-assertions"]
-    if h.get("object_bits"):
-        cb += ["--object-bits", str(h["object_bits"])]
+    ob_idx = len(cb)
+    cb += ["--object-bits", str(h.get("object_bits", 8))]
     solver = h.get("solver_" + tier, h.get("solver", "cadical"))
     res["solver"] = solver
     if solver == "cadical":
@@ -225,6 +225,10 @@ def build_and_run(h, tier, workroot, keep=False):
             outs.append((rc, out, err))
     else:
         rc, out, err, w = sh(cb, cwd=wd, timeout=tmo, mem_gb=h.get("mem_gb", 24))
+        # DFCC keeps sets indexed by object id (2^object-bits entries): use the smallest width that fits
+        while "too many addressed objects" in (out + err) and int(cb[ob_idx + 1]) < 14:
+            cb[ob_idx + 1] = str(int(cb[ob_idx + 1]) + 2)
+            rc, out, err, w = sh(cb, cwd=wd, timeout=tmo, mem_gb=h.get("mem_gb", 24))
         res["cmds"].append(" ".join(cb))
         if rc == -9:
             res["undecided"] = "cbmc timeout after %ds" % tmo
@@ -251,7 +255,7 @@ def parse_text_results(out, err, rc, wd, h, res):
     obligations = []
     text = out + "\n" + err
     for ln in text.split("\n"):
-        if re.search(r"ignoring|no body for|does not have a contract|out of memory|std::bad_alloc", ln):
+        if re.search(r"ignoring|no body for|does not have a contract|out of memory|std::bad_alloc|not enough arguments|too many addressed objects", ln):
             res["warnings"].append(ln[:300])
     if "** Results:" not in out or not re.search(r"VERIFICATION (SUCCESSFUL|FAILED)", out):
         res["undecided"] = "cbmc produced no result list (rc=%s): %s" % (rc, text[-1500:])
@@ -461,8 +465,8 @@ def report(pid, tier, seed, pdef, hs, results, extra_results, known, floors, wor
             undecided.append("%s: %s" % (hn, r["undecided"]))
             per_harness.append({"harness": hn, "status": "undecided", "reason": r["undecided"][:300]})
             continue
-        for wmsg in r["warnings"]:
-            if re.search(r"ignoring|no body for|does not have a contract", wmsg):
+        for wmsg in sorted(set(r["warnings"])):
+            if re.search(r"ignoring|no body for|does not have a contract|not enough arguments|too many addressed", wmsg):
                 undecided.append("%s: suspicious tool warning: %s" % (hn, wmsg))
         obs = r["obligations"]
         mine = []
